@@ -35,6 +35,17 @@ def observe(run, B=None, aborted=False):
     D = run.D
     ev = {'B': B if B is not None else [[] for _ in range(D)], 'tree': st['tree'], 'lmax': st['lmax'], 'active': st['active'],
           'old': st['old'], 'scheme': st['scheme'], 'cursors': st['cursors'], 'aborted': aborted}
+    # a read-only accessor asked first (the points of one component grid, as a user who inspects or plots a grid asks for them): it must not
+    # change what is observed afterwards
+    acc_note = None
+    if not aborted and len(c.scheme):
+        try:
+            with impl.quiet(), impl.watchdog(60):
+                c.get_points_component_grid(c.scheme[len(st['tree'][0]) % len(c.scheme)].levelvector)
+        except impl.Timeout:
+            raise
+        except Exception as ex:
+            acc_note = repr(ex)
     # P table: point list for every level lmin..lmax[d] (queried through the public point routine)
     P = []
     for d in range(D):
@@ -87,6 +98,12 @@ def observe(run, B=None, aborted=False):
         XA = np.asarray(X)
         with impl.quiet(), impl.watchdog(120):
             XV = np.asarray(c(X))
+        mid = getattr(run, '_mid', None)
+        run._mid = None
+        if mid is not None and (mid.shape != XV0.shape or not np.allclose(mid, XV0, rtol=0, atol=1e-12, equal_nan=True)):
+            # asked right after the refinement step, before the next evaluation: the interpolant is a function of the refinement only
+            interp_ok = False
+            detail['stale'] = 'the interpolant asked between the refinement step and the following evaluation differs from the one asked after that evaluation'
         if XV0.shape != np.asarray(XV, dtype=float).shape or not np.allclose(XV0, np.asarray(XV, dtype=float), rtol=0, atol=1e-12, equal_nan=True):
             interp_ok = False
             detail['stale'] = 'the interpolant at the fixed lattice differs between two calls in the same state (first call right after the previous state)'
@@ -177,6 +194,21 @@ def do_step(run, B):
     run.set_benefits(B)
     try:
         run.refine()
+        run._mid = None
+        if getattr(run, 'steps_done', 0) % 2 == 0 and not getattr(run, 'modified_basis', False):
+            # every second step the combined interpolant is asked right after the refinement, before the next evaluation
+            try:
+                n0 = 2 ** (run.lmax0 + 1)
+                X0 = list(itertools.product(*[[run.a[d] + (run.b[d] - run.a[d]) * k / n0 for k in range(n0 + 1)] for d in range(run.D)]))
+                with impl.quiet(), impl.watchdog(120):
+                    run._mid = np.asarray(run.combi(X0), dtype=float)
+            except impl.Timeout:
+                raise
+            except AssertionError:
+                raise
+            except Exception:
+                run._mid = None      # asking at this moment is not supported by every configuration: no verdict from the attempt itself
+        run.steps_done = getattr(run, 'steps_done', 0) + 1
         run.evaluate()
     except AssertionError as ex:
         ev = observe_safe(run, B, aborted=True)
